@@ -1,47 +1,15 @@
-(* C16 — proofs, part 2: symmetry (on tame objects) and transitivity (on tame objects without floats). *)
+(* C16 — proofs, part 2: symmetry (on well-formed objects) and transitivity (on well-formed objects without floats). *)
 From Coq Require Import ZArith NArith List Bool Lia Znumtheory.
 From C16 Require Import Model Spec Proofs Rounding.
 Import ListNotations.
 Open Scope Z_scope.
 Open Scope list_scope.
 
-(* ---- a bignum outside int64 never equals the rounding of a ratio with a small numerator ----------- *)
-Lemma int64_ok_false : forall a, int64_ok a = false -> 2 ^ 63 <= Z.abs a.
+(* ---- numbers: symmetry (every pair of representations; exact pairs by cross-multiplication) ----------- *)
+Lemma same_m_sym : forall x y, same_m x y = same_m y x.
 Proof.
-  intros a H. unfold int64_ok in H. apply andb_false_iff in H as [H|H].
-  - apply Z.leb_gt in H. lia.
-  - apply Z.ltb_ge in H. lia.
-Qed.
-Lemma rne_small : forall p n d a, 0 < d -> Z.abs n < 2 ^ 62 -> int64_ok a = false ->
-  dy_eqb (a, 0) (rne p n d) = false /\ dy_eqb (rne p n d) (a, 0) = false.
-Proof.
-  intros p n d a Hd Hn Ha. apply int64_ok_false in Ha.
-  assert (B : Z.abs n <= 2 ^ 62 * d) by nia.
-  pose proof (rne_bound p n d 62 Hd ltac:(lia) B) as RB.
-  destruct (rne p n d) as [m e].
-  rewrite (dy_eqb_sym (m, e) (a, 0)). split; [|]; unfold dy_eqb.
-  all: destruct (Z.leb_spec 0 e) as [He|He].
-  all: try (replace (Z.min 0 e) with 0 by lia; rewrite !Z.sub_0_r, Z.pow_0_r, Z.mul_1_r;
-            apply Z.eqb_neq; assert (0 < 2 ^ e) by (apply Z.pow_pos_nonneg; lia); change (2 ^ 63) with (2 * 2 ^ 62) in Ha; nia).
-  all: replace (Z.min 0 e) with e by lia; rewrite Z.sub_diag, Z.pow_0_r, Z.mul_1_r, Z.sub_0_l;
-       apply Z.eqb_neq; assert (0 < 2 ^ (- e)) by (apply Z.pow_pos_nonneg; lia); change (2 ^ 63) with (2 * 2 ^ 62) in Ha; nia.
-Qed.
-
-(* ---- numbers: symmetry ------------------------------------------------------------------------------ *)
-Definition num_tame (x : obj) : Prop := match x with Rat n d => 0 < d /\ Z.abs n < 2 ^ 62 | _ => True end.
-
-Lemma same_m_sym : forall x y, num_tame x -> num_tame y -> same_m x y = same_m y x.
-Proof.
-  intros x y Tx Ty. destruct x, y; unfold same_m, num_tame in *; try reflexivity;
+  intros x y. destruct x, y; unfold same_m; try reflexivity;
     try apply Z.eqb_sym; try apply dy_eqb_sym.
-  - (* Big, Rat *) destruct Ty as [Hd Hn]. destruct (int64_ok z) eqn:Ez.
-    + apply Z.eqb_sym.
-    + destruct (rne_small 53 n d z Hd Hn Ez) as [-> _].
-      destruct (rne_small (Z.max (bitlen z) 64) n d z Hd Hn Ez) as [_ ->]. reflexivity.
-  - (* Rat, Big *) destruct Tx as [Hd Hn]. destruct (int64_ok z) eqn:Ez.
-    + apply Z.eqb_sym.
-    + destruct (rne_small 53 n d z Hd Hn Ez) as [-> _].
-      destruct (rne_small (Z.max (bitlen z) 64) n d z Hd Hn Ez) as [_ ->]. reflexivity.
 Qed.
 
 (* ---- Object.Equal is symmetric (no guard) ------------------------------------------------------------ *)
@@ -53,17 +21,8 @@ Proof.
 Qed.
 
 (* ---- guards as propositions ----------------------------------------------------------------------- *)
-Lemma guard_num_tame : forall x, wf x = true -> tame x = true -> num_tame x.
-Proof.
-  intros x W T. destruct x; simpl in *; auto.
-  apply andb_true_iff in W as [W _]. apply Z.ltb_lt in W. apply Z.ltb_lt in T. auto.
-Qed.
 Lemma guard_Lst : forall xs, sym_guard (Lst xs) = true -> Forall (fun x => sym_guard x = true) xs.
-Proof.
-  intros xs H. unfold sym_guard in *. simpl in H. apply andb_true_iff in H as [W T].
-  rewrite forallb_Forall in W, T. rewrite Forall_forall in *. intros x Hx.
-  rewrite (W x Hx), (T x Hx). reflexivity.
-Qed.
+Proof. intros xs H. unfold sym_guard in *. simpl in H. apply forallb_Forall. exact H. Qed.
 Lemma guard_Vec : forall xs, sym_guard (Vec xs) = true -> Forall (fun x => sym_guard x = true) xs.
 Proof. exact guard_Lst. Qed.
 Lemma guard_Tl : forall v, sym_guard (Tl v) = true -> sym_guard v = true.
@@ -82,10 +41,7 @@ Qed.
 
 Lemma num_sym : forall x y, sym_guard x = true -> sym_guard y = true ->
   is_number x = true -> is_number y = true -> same_m x y = same_m y x.
-Proof.
-  intros x y Gx Gy _ _. unfold sym_guard in *. apply andb_true_iff in Gx as [W1 T1]. apply andb_true_iff in Gy as [W2 T2].
-  apply same_m_sym; apply guard_num_tame; assumption.
-Qed.
+Proof. intros x y _ _ _ _. apply same_m_sym. Qed.
 
 Lemma equal_s_sym : forall x, sym_guard x = true -> forall y, sym_guard y = true -> equal_s x y = equal_s y x.
 Proof.
@@ -132,15 +88,15 @@ Definition qeq (p q : Z * Z) : bool := fst p * snd q =? fst q * snd p.
 Definition num_exact (x : obj) : Prop :=
   match x with
   | Fix z => int64_ok z = true
-  | Rat n d => 0 < d /\ Z.gcd n d = 1 /\ Z.abs n < 2 ^ 62
+  | Rat n d => 0 < d /\ Z.gcd n d = 1
   | Flt _ _ _ => False
   | _ => True
   end.
 Lemma guard_num_exact : forall x, trans_guard x = true -> num_exact x.
 Proof.
-  intros x G. unfold trans_guard in G. apply andb_true_iff in G as [G F]. apply andb_true_iff in G as [W T].
+  intros x G. unfold trans_guard in G. apply andb_true_iff in G as [W F].
   destruct x; simpl in *; auto; try discriminate.
-  apply andb_true_iff in W as [W1 W2]. apply Z.ltb_lt in W1, T. apply Z.eqb_eq in W2. auto.
+  apply andb_true_iff in W as [W1 W2]. apply Z.ltb_lt in W1. apply Z.eqb_eq in W2. auto.
 Qed.
 Lemma qeq_trans : forall p q r, 0 < snd p -> 0 < snd q -> 0 < snd r -> qeq p q = true -> qeq q r = true -> qeq p r = true.
 Proof.
@@ -152,23 +108,13 @@ Qed.
 Lemma qnum_den_pos : forall x p, qnum x = Some p -> num_exact x -> 0 < snd p.
 Proof. intros [] p H E; simpl in *; inversion H; subst; simpl; try lia; tauto. Qed.
 
-Lemma big_not_small : forall a n d, int64_ok a = false -> 0 < d -> Z.abs n < 2 ^ 62 -> (a * d =? n) = false.
-Proof.
-  intros a n d Ha Hd Hn. apply int64_ok_false in Ha. apply Z.eqb_neq. change (2 ^ 63) with (2 * 2 ^ 62) in Ha. nia.
-Qed.
-
 Lemma same_exact : forall x y p q, qnum x = Some p -> qnum y = Some q -> num_exact x -> num_exact y ->
   same_m x y = qeq p q.
 Proof.
   intros x y p q Hx Hy Ex Ey.
   destruct x; simpl in Hx; inversion Hx; subst; clear Hx;
   destruct y; simpl in Hy; inversion Hy; subst; clear Hy; unfold same_m, qeq; simpl fst; simpl snd;
-    rewrite ?Z.mul_1_r; try reflexivity.
-  - (* Big, Rat *) destruct Ey as (Hd & _ & Hn). destruct (int64_ok z) eqn:Ez; [reflexivity|].
-    destruct (rne_small 53 n d z Hd Hn Ez) as [-> _]. symmetry. apply big_not_small; auto.
-  - (* Rat, Big *) destruct Ex as (Hd & _ & Hn). destruct (int64_ok z) eqn:Ez; [reflexivity|].
-    destruct (rne_small (Z.max (bitlen z) 64) n d z Hd Hn Ez) as [_ ->]. symmetry.
-    rewrite Z.eqb_sym. apply big_not_small; auto.
+    rewrite ?Z.mul_1_r; reflexivity.
 Qed.
 
 Lemma gcd_one_divides : forall n d a, 0 < d -> Z.gcd n d = 1 -> a * d = n -> d = 1.
@@ -188,7 +134,7 @@ Proof.
   - (* Fix, Big *) destruct (Z.eqb_spec z0 z) as [->|N].
     + rewrite Ex, Z.eqb_refl. reflexivity.
     + rewrite andb_false_r. symmetry. apply Z.eqb_neq. congruence.
-  - (* Fix, Rat *) destruct Ey as (Hd & Hg & Hn).
+  - (* Fix, Rat *) destruct Ey as (Hd & Hg).
     destruct (Z.eqb_spec (z * d) n) as [E|N].
     + pose proof (gcd_one_divides n d z Hd Hg E) as D1. subst d. rewrite Z.mul_1_r in E. subst n.
       rewrite Ex, !Z.eqb_refl. reflexivity.
@@ -197,19 +143,19 @@ Proof.
   - (* Big, Fix *) destruct (Z.eqb_spec z z0) as [->|N].
     + rewrite Ey. reflexivity.
     + rewrite andb_false_r. reflexivity.
-  - (* Big, Rat *) destruct Ey as (Hd & Hg & Hn).
+  - (* Big, Rat *) destruct Ey as (Hd & Hg).
     destruct (Z.eqb_spec (z * d) n) as [E|N].
     + pose proof (gcd_one_divides n d z Hd Hg E) as D1. subst d. rewrite Z.mul_1_r in E. subst n.
       rewrite !Z.eqb_refl. reflexivity.
     + destruct (d =? 1) eqn:E1; [|reflexivity]. apply Z.eqb_eq in E1. subst d.
       destruct (z =? n) eqn:E2; [|reflexivity]. apply Z.eqb_eq in E2. lia.
-  - (* Rat, Fix *) destruct Ex as (Hd & Hg & Hn).
+  - (* Rat, Fix *) destruct Ex as (Hd & Hg).
     destruct (Z.eqb_spec n (z * d)) as [E|N].
     + symmetry in E. pose proof (gcd_one_divides n d z Hd Hg E) as D1. subst d. rewrite Z.mul_1_r in E. subst n.
       rewrite Ey, !Z.eqb_refl. reflexivity.
     + destruct (d =? 1) eqn:E1; [|reflexivity]. apply Z.eqb_eq in E1. subst d.
       destruct (n =? z) eqn:E2; [|rewrite andb_false_r; reflexivity]. apply Z.eqb_eq in E2. lia.
-  - (* Rat, Big *) destruct Ex as (Hd & Hg & Hn).
+  - (* Rat, Big *) destruct Ex as (Hd & Hg).
     destruct (Z.eqb_spec n (z * d)) as [E|N].
     + symmetry in E. pose proof (gcd_one_divides n d z Hd Hg E) as D1. subst d. rewrite Z.mul_1_r in E. subst n.
       rewrite !Z.eqb_refl. reflexivity.
@@ -238,10 +184,10 @@ Qed.
 Lemma tguard_list : forall xs, (trans_guard (Lst xs) = true \/ trans_guard (Vec xs) = true) ->
   Forall (fun x => trans_guard x = true) xs.
 Proof.
-  intros xs H. assert (H' : forallb wf xs && forallb tame xs && forallb nofloat xs = true) by (destruct H as [H|H]; exact H).
-  apply andb_true_iff in H' as [H1 F]. apply andb_true_iff in H1 as [W T].
-  rewrite forallb_Forall in W, T, F. rewrite Forall_forall in *. intros x Hx.
-  unfold trans_guard. rewrite (W x Hx), (T x Hx), (F x Hx). reflexivity.
+  intros xs H. assert (H' : forallb wf xs && forallb nofloat xs = true) by (destruct H as [H|H]; exact H).
+  apply andb_true_iff in H' as [W F].
+  rewrite forallb_Forall in W, F. rewrite Forall_forall in *. intros x Hx.
+  unfold trans_guard. rewrite (W x Hx), (F x Hx). reflexivity.
 Qed.
 Lemma tguard_Tl : forall v, trans_guard (Tl v) = true -> trans_guard v = true.
 Proof. intros v H. exact H. Qed.
